@@ -344,6 +344,10 @@ pinned_outcome_harness!(c01_k2_upgrade_first, 2, M2, b"t", [O_UPGRADE, 255, 255]
 malformed_kind_harness!(c06_k1_truncated, 1, M1, b"t", 0, 1);
 malformed_kind_harness!(c06_k2_first_truncated, 2, M2, b"t", 0, 1);
 malformed_kind_harness!(c06_k2_second_truncated, 2, M2, b"t", 1, 1);
+// the malformed message is valid JSON of the wrong shape (serde_json error category Data)
+malformed_kind_harness!(c06_k1_wrong_shape, 1, M1, b"t", 0, 2);
+malformed_kind_harness!(c06_k2_first_wrong_shape, 2, M2, b"t", 0, 2);
+malformed_kind_harness!(c06_k2_second_wrong_shape, 2, M2, b"t", 1, 2);
 
 handle_harness!(c01_k1_d_flags, 8, 1, M1, b"t", NOFAIL, SOMEFLAGS, [D, D, D]);
 handle_harness!(c01_k2_dd, 8, 2, M2, b"t", NOFAIL, NOFLAGS, [D, D, D]);
